@@ -667,6 +667,7 @@ struct Extractor {
 		if (t >= 0) d["tid"] = t;
 		if (V->getType()->isReferenceType()) d["ref"] = true;
 		if (V->getType()->isPointerType()) d["ptr"] = true;
+		if (V->getType()->isArrayType()) d["array"] = true;
 		if (V->getType().getNonReferenceType().isConstQualified()) d["const"] = true;
 		if (V->isStaticLocal()) d["static"] = true;
 		if (V->getTLSKind() != VarDecl::TLS_None) d["tls"] = true;
